@@ -45,6 +45,20 @@ def shard(ctx):
     jobs.append(("plist.boot", "boot-list", seeds.PLIST_BOOT.encode(), dict(text=True)))
     jobs.append(("plist.game", "game-list", seeds.PLIST_GAME.encode(), dict(text=True)))
     jobs.append(("plist.game", "boot-list-as-game", seeds.PLIST_BOOT.encode(), dict(text=True)))
+    # textual seeds that already carry multi-byte text in several places (a single inserted character cannot move a byte index into
+    # another multi-byte character: that needs two of them), and minimal texts (an index computed on a transformed copy overshoots a
+    # short string); every such variant then goes through the ordinary fault operators
+    for kind, lab, data in [("plist.boot", "boot-list", seeds.PLIST_BOOT.encode()), ("plist.game", "game-list", seeds.PLIST_GAME.encode()),
+                            ("cfg", "tiny-cfg", b"\r\n<A>\r\nk\tv\r\n\0"), ("exl", "generated-exl", seeds.seeds_exl(rng)[-1][1])]:
+        for v in range(2):
+            b = bytearray(data)
+            starts = [i for i in range(len(b) + 1) if i == 0 or i == len(b) or (b[i - 1] in b"\t\r\n,=;/ :" and b[i:i + 1] not in (b"\r", b"\n"))]
+            for pos in sorted(rng.sample(starts, min(len(starts), rng.choice([2, 3, 6, 12]))), reverse=True):
+                b[pos:pos] = (rng.choice(faults.UTF8_INSERTS) * rng.choice([1, 1, 4, 19])).encode("utf-8")
+            jobs.append((kind, lab + "+utf8-text", bytes(b), dict(text=True, small=True)))
+    for kind, lab, data in [("plist.boot", "minimal-header", b"X-Patch-Length: 1\r\n"), ("plist.game", "minimal-header", b"X-Patch-Length: 1\r\n"),
+                            ("plist.boot", "header-twice", b"x-patch-length: 7\r\nX-Patch-Length: 1\r\n\r\n"), ("exl", "minimal-exl", b"EXLT,2\r\n"), ("cfg", "minimal-cfg", b"<A>\r\nk\tv\r\n")]:
+        jobs.append((kind, lab, data, dict(text=True, small=True)))
     for lab, data in seeds.seeds_patch(rng):
         jobs.append(("zp.apply", lab, data, dict(big_endian=True, patch=True)))
     for where in ("start", "middle", "end"):
@@ -60,6 +74,8 @@ def shard(ctx):
         mine = [prio[ctx.index % len(prio)]] + sorted(mine, key=lambda j: len(j[2]))[:max(0, P.get("jobs", 2) - 1)]
     for kind, lab, data, opt in mine:
         budget = P["budget"] if kind != "zp.apply" else max(600, P["budget"] // 4)
+        if opt.get("small"):
+            budget = max(400, budget // 4)
         muts = faults.mutations(data, rng, budget, big_endian=opt.get("big_endian", False), text=opt.get("text", False), dense_limit=opt.get("dense_limit", 1536), cap=cap)
         if opt.get("patch"):
             n = len(data)
